@@ -412,6 +412,19 @@ func (h *harness) confirmHang(e *entry, st *stats, in input) {
 		return
 	}
 	h.alone.Lock()
+	if e.hangGroup != "" {
+		// another entry point of the group may have had its hang confirmed while this one waited for its turn
+		h.mu.Lock()
+		settled := h.hangs["group:"+e.hangGroup]
+		h.mu.Unlock()
+		if settled {
+			h.alone.Unlock()
+			st.mu.Lock()
+			st.aborted = true
+			st.mu.Unlock()
+			return
+		}
+	}
 	expired := 0
 	for i := 0; i < 3; i++ {
 		if o := guarded(func() error { return e.call(in) }, watchdog); o.timeout {
